@@ -645,8 +645,14 @@ func ExecutePlan(plan *Plan, p ExecuteParams) (result *Result) {
 	resultChannel := make(chan *Result, 2)
 	go func() {
 		out := &Result{}
+		var eCtx *executionContext
 		defer func() {
 			if err := recover(); err != nil {
+				if eCtx != nil {
+					// keep the field errors recorded before the failure
+					// that nulled the whole response
+					out.Errors = append(out.Errors, eCtx.Errors...)
+				}
 				if e, ok := err.(error); ok {
 					out.Errors = append(out.Errors, gqlerrors.FormatError(e))
 				} else {
@@ -669,7 +675,7 @@ func ExecutePlan(plan *Plan, p ExecuteParams) (result *Result) {
 			return
 		}
 
-		eCtx := &executionContext{
+		eCtx = &executionContext{
 			Schema:         execSchema,
 			Fragments:      plan.fragments,
 			Root:           p.Root,
